@@ -231,4 +231,29 @@ def packMap (mapping : List Nat) : Nat × Nat × List Nat :=
     beBytes entrySize (v % 4294967296)
   (fmt, cnt, data)
 
+/-! ### `add_deltas` / `DeltaSetStorage::add` (de-duplication) and canonical region indices -/
+
+/-- `DeltaSetStorage::Deduplicated(IndexMap<DeltaSet, TemporaryDeltaSetId>)` as an insertion-ordered
+association list; `add`: `*deltas.entry(delta_set).or_insert(deltas.len() as u32)`. -/
+def dedupAdd (entries : List (List (Nat × Int) × Nat)) (ds : List (Nat × Int)) :
+    List (List (Nat × Int) × Nat) × Nat :=
+  match entries.find? (fun e => e.1 == ds) with
+  | some e => (entries, e.2)
+  | none => (entries ++ [(ds, entries.length % 4294967296)], entries.length % 4294967296)
+
+/-- a sequence of `add_deltas` calls on the de-duplicating storage (inputs already carry canonical
+region indices): final storage `iter()` order and the temporary id returned by each call. -/
+def addAllDedup (entries : List (List (Nat × Int) × Nat)) :
+    List (List (Nat × Int)) → List (List (Nat × Int) × Nat) × List Nat
+  | [] => (entries, [])
+  | ds :: rest =>
+    let r := dedupAdd entries (normalizeDeltaSet ds)
+    let r' := addAllDedup r.1 rest
+    (r'.1, r.2 :: r'.2)
+
+/-- `canonical_index_for_region`: `*all_regions.entry(region).or_insert(all_regions.len())` with the
+map as the list of regions in index order. -/
+def canonIndex {R} [BEq R] (all : List R) (r : R) : List R × Nat :=
+  if all.contains r then (all, all.idxOf r) else (all ++ [r], all.length)
+
 end FontVerif.Ivs
